@@ -508,6 +508,7 @@ func pbEigenvalues(symmetric bool) bGen {
 		in := matInput("A", a)
 		in.sym = symmetric
 		pb := &problem{iterative: true, routine: "eigensystem", opts: "ComputeEigenvectors=false", class: "real-simple-spectrum", in: []*input{in}, ticks: 5000}
+		pb.degeneracy = func(ins []*input) float64 { return hessenbergDegeneracy(ins[0].mat()) }
 		if symmetric {
 			pb.opts += ",Symmetric"
 			pb.class = "symmetric-simple-spectrum"
@@ -548,6 +549,7 @@ func pbSingularValues(r *prng.Rand, n int, e elem, sparse bool) *problem {
 		a = genGeneral(r, m, n, r.Uniform(2, 30))
 	}
 	pb := &problem{iterative: true, routine: "svd", opts: "values", class: class, in: []*input{matInput("A", a)}, ticks: 5000}
+	pb.degeneracy = func(ins []*input) float64 { return bidiagDegeneracy(ins[0].mat()) }
 	pb.exec = func(args []any, _ *any) ([]block, error) {
 		h, _, _, err := svd.Run(asMatrix(args[0]))
 		if err != nil {
